@@ -7,6 +7,8 @@ import (
 	"context"
 	"math/rand"
 	"net/netip"
+	"os"
+	"syscall"
 	"sort"
 	"testing"
 	"testing/synctest"
@@ -233,7 +235,13 @@ func runAdv(t *testing.T, out *vfh.Out, op string, min, max time.Duration, unica
 		if failWrite >= 0 {
 			v.conn.writeErr = func(n int, _ netip.Addr) error {
 				if n == failWrite {
-					return context.DeadlineExceeded // any non-recoverable error
+					// a fatal error, or — in every other scenario — a transient system call error
+					// (the driver's transmit queue is full): whichever it is, this transmission has
+					// failed and the incarnation ends; nothing is quietly retried past its due instant
+					if len(evs)%2 == 1 {
+						return &os.SyscallError{Syscall: "sendmsg", Err: syscall.ENOBUFS}
+					}
+					return context.DeadlineExceeded
 				}
 				return nil
 			}
@@ -301,6 +309,13 @@ func runAdv(t *testing.T, out *vfh.Out, op string, min, max time.Duration, unica
 		}
 		time.Sleep(10 * time.Second)
 		synctest.Wait()
+		// a transient system call error ends the incarnation just as a fatal one does; the dialer
+		// then tries to re-establish the interface (the scripted second dial fails, it keeps
+		// retrying with back-off) until the stop arrives, and Run returns nil: the second dial
+		// attempt is the evidence that the incarnation was torn down with the error
+		if status == "nil" && failWrite >= 0 && len(evs)%2 == 1 && v.dials >= 2 {
+			status = "error"
+		}
 
 		impl := new(vfh.Toks).S(status).B(dead)
 		ws := sortedWrites(v.conn.snapshot())
